@@ -33,7 +33,7 @@ STATIC = ["patch_flag_restored", "pages_sequence_flag", "patch_disables_document
     "patch_other_statements_evaluate", "patch_keeps_documented_prefix", "patch_drops_nothing_documented",
     "patch_names_resolve", "reset_switches_on", "patch_parse_consistent_partial", "substitute_spec",
     "substitute_spec_swapped", "substitute_symbol_only", "substitute_latex_only", "substitute_none",
-    "find_reports_first_occurrence"]
+    "find_reports_first_occurrence", "reset_restores_all_switches", "patch_switches_restored", "pages_switches_restored"]
 
 WORKER = Path(__file__).resolve().parents[1] / "vp" / "docs19_worker.py"
 HARNESS = str(Path(__file__).resolve().parents[1])
@@ -134,6 +134,87 @@ def tie_processors(ctx):
              "replay_kind": "processors"}, found_input=fails)
     ctx.evaluated(len(cases), len({c for c in cases}))
     ctx.sample({"stream": "processors", "start": keep[-1][0], "calls": keep[-1][1], "flags": keep[-1][2]})
+    return len(bad)
+
+
+def tie_switches(ctx):
+    """The whole record of sympy.core.parameters.global_parameters: the write table of the three functions is
+    TRANSLATED from the AST of core/processors.py, `covers` is decided inside Coq (hypothesis of
+    patch_switches_restored), and the translated table is validated against the real functions on seeded call
+    sequences from seeded start records (all fields observed after every call)."""
+    from sympy.core.parameters import global_parameters as GP  # pylint: disable=import-outside-toplevel
+    from symplyphysics.core import processors  # pylint: disable=import-outside-toplevel
+    src = common.REPO / "symplyphysics" / "core" / "processors.py"
+    defaults = dict(vars(GP))
+    try:
+        table = D.read_processor_writes(src)
+        if not all(isinstance(v, bool) for v in defaults.values()):
+            raise D.Unmodelled(f"non-boolean global switch: {defaults}")
+    except D.Unmodelled as e:
+        ctx.violation("C19:switches:translator", f"core/processors.py is outside the translator's vocabulary: {e}",
+            {"kind": "broken-tie", "theorem_or_tie": "read_processor_writes (vp/docs19.py)", "why": str(e)}, found_input=False)
+        return 0
+    fields = sorted(set(defaults) | {f for ws in table.values() for f, _ in ws})
+    ids = {f: i for i, f in enumerate(fields)}
+    for f in fields:
+        defaults.setdefault(f, True)
+    P = f"(mkProcs {D.coq_writes(table['w_disable'], ids)} {D.coq_writes(table['w_enable'], ids)} {D.coq_writes(table['w_reset'], ids)})"
+    ctx.coverage["global_switches"] = {"fields": fields, "defaults": defaults, "writes": {k: [list(w) for w in v] for k, v in table.items()}}
+    fns = {"D": processors.disable_sympy_evaluation, "E": processors.enable_sympy_evaluation, "R": processors.reset_sympy_evaluation}
+    coqop = {"D": "OpDisable", "E": "OpEnable", "R": "OpReset"}
+    rng = ctx.rng
+    saved = dict(vars(GP))
+
+    def run_real(start, ops):
+        obs = []
+        try:
+            for f, v in start.items():
+                setattr(GP, f, v)
+            for o in ops:
+                fns[o]()
+                obs.append({f: getattr(GP, f, None) for f in fields})
+        finally:
+            for f, v in saved.items():
+                setattr(GP, f, v)
+        return obs
+
+    cases, keep = [], []
+    for k in range(ctx.pick(200, 2000)):
+        ops = [rng.choice("DER") for _ in range(rng.randrange(1, 7))]
+        start = dict(defaults) if k % 4 == 0 else {f: rng.random() < 0.5 for f in fields}
+        obs = run_real(start, ops)
+        if any(not isinstance(v, bool) for o in obs for v in o.values()):
+            ctx.violation("C19:switches:non-boolean", "a global switch took a non-boolean value", {"kind": "broken-tie",
+                "observed": obs, "theorem_or_tie": "switch record"}, found_input=False)
+            return 0
+        cases.append("(%s, %s, %s)" % (D.coq_switches(start, ids), D.coq_list(coqop[o] for o in ops),
+            D.coq_list(D.coq_switches(o, ids) for o in obs)))
+        keep.append((start, "".join(ops), obs))
+    bad = coqrun.eval_cases(ctx, "switches", D.PREAMBLE, cases,
+        f"fun c : switches * list flag_op * list switches => let '(s, ops, obs) := c in list_eqb sw_eqb (sw_ops_trace {P} s ops) obs")
+    for i in bad[:10]:
+        start, ops, obs = keep[i]
+        ctx.violation(f"C19:switches:trace:{ops}:{sha(str(sorted(start.items())))}",
+            f"the write table translated from processors.py does not reproduce the real functions on calls {ops}",
+            {"kind": "disagreement", "input": {"start": start, "calls": ops}, "observed": obs, "translated_table": table,
+             "theorem_or_tie": "sw_ops_trace ~ processors.py (translator validation)", "replay_kind": "switches"}, found_input=False)
+    # the hypothesis of patch_switches_restored, decided by the kernel on the translated table
+    s0 = D.coq_switches(defaults, ids)
+    notcov = coqrun.eval_cases(ctx, "covers", D.PREAMBLE, [f"({P}, {s0})"], "fun c : procs * switches => covers (fst c) (snd c)")
+    ctx.obligations(1, 0 if notcov else 1)
+    if notcov:
+        # search the implementation: disable(); reset() from the default record
+        obs = run_real(dict(defaults), ["D", "R"])
+        left = {f: obs[-1][f] for f in fields if obs[-1][f] != defaults[f]}
+        for f in (left or {"?": None}):
+            ctx.violation(f"C19:switch-not-restored:{f}",
+                f"reset_sympy_evaluation does not restore global_parameters.{f}: after disable(); reset() from the defaults "
+                f"{defaults} the record is {obs[-1]}" if left else "covers = false for the translated write table but disable(); reset() restored the record",
+                {"kind": "violation" if left else "broken-proof", "input": {"start": defaults, "calls": "DR"}, "observed": obs[-1],
+                 "expected": defaults, "translated_table": table, "theorem_or_tie": "hypothesis `covers` of patch_switches_restored",
+                 "replay_kind": "switches"}, found_input=bool(left))
+    ctx.evaluated(len(cases), len(set(cases)))
+    ctx.sample({"stream": "switches", "start": keep[1][0], "calls": keep[1][1], "records": keep[1][2]})
     return len(bad)
 
 
@@ -910,7 +991,7 @@ def _run(ctx, sources, scratch):
         jobs[f"ord{k}"] = Job(scratch, f"ord{k}", "order", dict(base, items=items), "0")
 
     # ---- proof-part ties, while the workers run ----
-    d1 = tie_processors(ctx)
+    d1 = tie_processors(ctx) + tie_switches(ctx)
     rows, side_fail, d2 = tie_catalogue(ctx, sources)
     d3 = tie_synthetic(ctx)
     d4 = tie_view(ctx)
@@ -1112,6 +1193,23 @@ def replay(ctx, rep):
                 print(f"  after {fns[o].__name__}: evaluate = {GP.evaluate}")
         finally:
             GP.evaluate = True
+        return 0
+    if kind == "switches":
+        from sympy.core.parameters import global_parameters as GP  # pylint: disable=import-outside-toplevel
+        from symplyphysics.core import processors  # pylint: disable=import-outside-toplevel
+        fns = {"D": processors.disable_sympy_evaluation, "E": processors.enable_sympy_evaluation, "R": processors.reset_sympy_evaluation}
+        saved = dict(vars(GP))
+        try:
+            for f, v in rep["input"]["start"].items():
+                setattr(GP, f, v)
+            print("  start:", dict(vars(GP)))
+            for o in rep["input"]["calls"]:
+                fns[o]()
+                print(f"  after {fns[o].__name__}: {dict(vars(GP))}")
+        finally:
+            for f, v in saved.items():
+                setattr(GP, f, v)
+        print("  defaults:", saved, "| table read from the source:", D.read_processor_writes(common.REPO / "symplyphysics" / "core" / "processors.py"))
         return 0
     if kind == "module-shape":
         from symplyphysics.docs import patch as P  # pylint: disable=import-outside-toplevel
